@@ -61,6 +61,11 @@ _CTRL_O = ['q"1', 'b\\2', 'tab\t3', 'nl\n4', 'cr\r5', 'bell\x07', 'q"q"',
            '\x7fdel', 'é', ',', ': ']
 
 
+_PUNCT_O += ['_lead', 'trail_', '.dot', 'dot.', '-dash', 'dash-', '(par)',
+             '0lead', 'x#hash', ';semi', 'q?', '*', '__', 'a..b']
+_CTRL_O += ['#hash', ' lead', 'trail ', '_u_']
+
+
 def _variant(base, tag):
     return [tag + s for s in base]
 
